@@ -8,6 +8,9 @@ use serde::{Deserialize, Serialize};
 
 pub type Ms = u32;
 
+/// sentinel timeout value: `Duration::MAX` ("wait forever" spelled as a timeout)
+pub const MS_MAX: Ms = u32::MAX;
+
 #[derive(Serialize, Deserialize, Clone, Debug, PartialEq, Default)]
 pub struct Scenario {
     pub actors: Vec<ActorSpec>,
@@ -102,6 +105,9 @@ pub enum Step {
         #[serde(default)]
         erased: bool,
     },
+    /// several sends issued concurrently from this hook (`join_all`): e.g. two asks in flight at
+    /// once, or an ask next to one that panics
+    Par(Vec<Step>),
     /// `kill()` on own reference (via weak upgrade in on_run/on_stop)
     KillSelf,
     /// kill a peer
@@ -125,6 +131,10 @@ pub enum How {
     /// (the call abandoned) if it has not returned after the given time
     TellC(Ms),
     AskC(Ms),
+    /// the tell / ask future is created, then the caller yields `n` times (other tasks run) before it
+    /// polls it for the first time - or, if `drop` is set, drops it without ever polling it
+    TellL { yields: u8, drop: bool },
+    AskL { yields: u8, drop: bool },
     /// ask_with_timeout(t) issued by a *busy caller*: the future is polled once, then not polled
     /// at all for `late` ms (its wake-ups are ignored), then awaited
     AskTL(Ms, Ms),
@@ -138,7 +148,7 @@ pub enum How {
 
 impl How {
     pub fn is_tell(&self) -> bool {
-        matches!(self, How::Tell | How::TellT(_) | How::TellC(_) | How::BTell(_) | How::DepTell(_))
+        matches!(self, How::Tell | How::TellT(_) | How::TellC(_) | How::TellL { .. } | How::BTell(_) | How::DepTell(_))
     }
     pub fn is_ask(&self) -> bool {
         !self.is_tell()
@@ -275,6 +285,11 @@ impl Scenario {
                         return false;
                     }
                 }
+                if let Step::Par(inner) = s {
+                    if !walk(inner, seen) {
+                        return false;
+                    }
+                }
             }
             true
         }
@@ -319,6 +334,7 @@ impl Scenario {
             s.iter()
                 .map(|s| match s {
                     Step::Sleep(ms) => *ms as u64,
+                    Step::Par(inner) => steps(inner),
                     Step::Send { how, msg, .. } => {
                         how.timeout().or(how.cancel_after()).map(|t| (t as u64).min(200)).unwrap_or(0) + how.late().unwrap_or(0) as u64 + msg_cost(msg)
                     }
